@@ -32,10 +32,53 @@ class Block:
         self.words = z3.K(BV64, z3.BitVecVal(0, 64))
         self.words_written = []
         self.objs = {}
+        self.elems = {}       # element type name -> z3 array byte offset -> E_<type> (contents of Value slots)
         self.freed = None
 
     def __repr__(self):
         return f'block {self.name}'
+
+
+ELEM_HEADS = ('Value',)
+
+
+def is_elem_ty(ty):
+    return ty_kind(ty) == 'adt' and ty_head(ty) in ELEM_HEADS
+
+
+def elem_sort(ty):
+    return z3.DeclareSort('E_' + sort_name(ty))
+
+
+def elems_of(blk, ty):
+    tn = sort_name(ty)
+    a = blk.elems.get(tn)
+    if a is None:
+        a = z3.Const(f'{blk.name}.init_{tn}', z3.ArraySort(BV64, elem_sort(ty)))
+        blk.elems[tn] = a
+    return a
+
+
+def _inner_ptr(eng, v):
+    """the raw pointer inside pointer-sized wrappers (NonNull / RawSharedVector / List ...): newtypes whose other fields are
+    zero sized"""
+    seen = 0
+    while seen < 6:
+        seen += 1
+        if isinstance(v, BlockPtr):
+            return v
+        if isinstance(v, Struct):
+            vals = []
+            for k in sorted(v.f):
+                x = v.f[k].get(eng)
+                if x is UNIT or isinstance(x, FnItem) or (isinstance(x, Struct) and not x.f and (x.backing is None or 'PhantomData' in str(x.ty))):
+                    continue      # PhantomData
+                vals.append(x)
+            if len(vals) == 1:
+                v = vals[0]
+                continue
+        return None
+    return None
 
 
 class BlockPtr:
@@ -99,6 +142,9 @@ class BlockSlice:
     def slice_len(self, eng):
         return self.len
 
+    def ptr_metadata(self, eng):
+        return self.len
+
 
 class BlockCell:
     """the place *p"""
@@ -127,6 +173,9 @@ class BlockCell:
             if pt is not None and ty_kind(p.ty) in ('ptr', 'ref'):
                 return pt
             return w
+        if is_elem_ty(p.ty):
+            t = z3.Select(elems_of(p.blk, p.ty), p.off)
+            return eng.materialise(norm_ty(ty_head(p.ty)), TermBacking(z3.simplify(t), sort_name(p.ty)))
         k = (str(z3.simplify(p.off)), p.ty)
         v = p.blk.objs.get(k)
         if v is None:
@@ -142,7 +191,15 @@ class BlockCell:
         if isinstance(v, z3.ExprRef) and z3.is_bv(v) and v.size() == 64:
             p.blk.words = z3.Store(p.blk.words, p.off, v)
             p.blk.words_written.append(p.off)
+            eng.path_state.get('word_ptrs', {}).pop((p.blk.name, str(z3.simplify(p.off))), None)
             return
+        if is_elem_ty(p.ty):
+            t = eng.elem_term(v, elem_sort(p.ty), sort_name(p.ty))
+            p.blk.elems[sort_name(p.ty)] = z3.Store(elems_of(p.blk, p.ty), p.off, t)
+            return
+        ip = _inner_ptr(eng, v)
+        if ip is not None:
+            v = ip
         if isinstance(v, (BlockPtr,)):
             # a pointer stored in a word (forwarding pointer): remember the pointer, and a tagged address for word reads
             eng.path_state.setdefault('word_ptrs', {})[(p.blk.name, str(z3.simplify(p.off)))] = v
@@ -242,6 +299,18 @@ def install(eng, P):
 
     def m_copy(e, a, c):
         src, dst, n = a
+        if isinstance(src, BlockPtr) and isinstance(dst, BlockPtr) and is_elem_ty(dst.ty):
+            if conc(n) != 0:
+                src.from_raw_parts(e, n)
+                dst.from_raw_parts(e, n)
+            sz = e.size_of(dst.ty)
+            e.fresh_n += 1
+            o = z3.BitVec(f'o!{e.fresh_n}', 64)
+            old_s, old_d = elems_of(src.blk, src.ty), elems_of(dst.blk, dst.ty)
+            inreg = z3.And(z3.ULE(dst.off, o), z3.ULT(o, dst.off + n * sz))
+            dst.blk.elems[sort_name(dst.ty)] = z3.Lambda([o], z3.If(inreg, z3.Select(old_s, o - dst.off + src.off), z3.Select(old_d, o)))
+            e.path_state.setdefault('mem_access', []).append(('copy', src.blk.name, src.off, dst.blk.name, dst.off, n))
+            return UNIT
         for p, what in ((src, 'read'), (dst, 'write')):
             while isinstance(p, Ref) and not isinstance(p.cell, BlockCell):
                 break
@@ -259,9 +328,26 @@ def install(eng, P):
         while isinstance(dst, Ref):
             dst = dst.cell.get(e)
         if isinstance(dst, BlockSlice):
+            while isinstance(src, Ref):
+                src = src.cell.get(e)
             n2 = e.slice_len(src) if not isinstance(src, BlockSlice) else src.len
             if not e.fork_bool(dst.len == n2):
                 raise PathEnd('panic', 'copy_from_slice: length mismatch')
+            dp = dst.ptr
+            if is_elem_ty(dp.ty):
+                sz = e.size_of(dp.ty)
+                e.fresh_n += 1
+                o = z3.BitVec(f'o!{e.fresh_n}', 64)
+                old_d = elems_of(dp.blk, dp.ty)
+                inreg = z3.And(z3.ULE(dp.off, o), z3.ULT(o, dp.off + n2 * sz))
+                if isinstance(src, BlockSlice):
+                    val = z3.Select(elems_of(src.ptr.blk, src.ptr.ty), o - dp.off + src.ptr.off)
+                elif isinstance(src, SliceRef) and isinstance(src.seq, SymSeq) and src.seq.arr.sort().range() == elem_sort(dp.ty):
+                    val = z3.Select(src.seq.arr, src.start + z3.UDiv(o - dp.off, bv(sz, 64)))
+                else:
+                    val = None
+                if val is not None:
+                    dp.blk.elems[sort_name(dp.ty)] = z3.Lambda([o], z3.If(inreg, val, z3.Select(old_d, o)))
             return UNIT
         return NotImplemented
     m(r'^core::slice::<impl \[.*\]>::copy_from_slice$', m_copy_from_slice)
